@@ -6,7 +6,7 @@ conditional expressions, plain left-hand sides. The generator's own term list is
 (name, offset) pairs an evaluation may read.
 """
 
-ENDO = ['A', 'B', 'C', 'D']
+ENDO = ['A', 'B', 'C', 'D', 'E1', 'F1', 'G1', 'H1', 'I1', 'J1', 'K1', 'L1']
 EXO = ['X', 'Z', 'W']
 PARAMS = ['a', 'b']
 ERRS = ['e']
